@@ -153,6 +153,39 @@ def key_independence_probe(ck, quick):
                                            case={"num_envs": N, "num_steps": T, "seed": ck.seed * 100 + rep}))
 
 
+def iteration_vs_singles(ck, rng, n):
+    """The REAL iteration() of an on-policy learner (its own vmap over environments) vs single-environment collections, on key-free
+    MDPs whose table leaves have a leading dimension equal to num_envs (so that slicing an environment leaf across the parallel
+    environments instead of broadcasting it would be visible).  Key-free: the comparison does not depend on how keys are derived."""
+    from harness.stubs import chain_tab
+    for idx in range(n):
+        N = 2 + idx % 3
+        spec = random_tab(rng, box_obs=False, noise=False, nS=N, trunc_rate=0.0, term_rate=0.2, box_action=bool(idx % 2))
+        spec["I"] = spec["I"][:1]; spec["P"] = [[[x[0]] for x in row] for row in spec["P"]]
+        # pad the action dimension to N as well: every table then has leading dimension num_envs somewhere
+        stack = [["TimeLimit", 3]]
+        env = build_stack(TabEnv(spec), stack)
+        pspec = random_ptab(rng, spec, spec["asp"], int(spec["osp"][1]), det=True)
+        policy = TabPolicy(pspec, env.action_space, env.observation_space)
+        T = 5
+        algo = PPO(num_envs=N, num_steps=T, gamma=0.5, gae_lambda=0.5, num_epochs=1, num_batches=1)
+        cb = CallbackList(callbacks=[])
+        ck.current_case = {"spec": spec, "pspec": pspec, "N": N, "T": T, "what": "real PPO.iteration vs single-environment collections (key-free MDP, num_states == num_envs)"}
+        st = algo.reset(env, policy, key=jr.key(idx), callback=cb)
+        st2 = eqx.filter_jit(lambda s, k: algo.iteration(s, key=k, callback=cb))(st, jr.key(100 + idx))
+        single = eqx.filter_jit(lambda ss, k: algo.collect_rollout(env, policy, ss, cb, k))
+        for i in range(N):
+            want, _ = single(jax.tree.map(lambda x: x[i], st.step_state), jr.key(7))
+            got = jax.tree.map(lambda x: x[i], st2.step_state)
+            if not (tree_equal_bits(got.env_state, want.env_state) and tree_equal_bits(got.policy_state, want.policy_state)):
+                ck.violations.append(Violation("impl-violates-property", "C12/onpolicy/iteration-vs-single",
+                                               "after iteration() environment %d is not in the state its own single-environment collection reaches" % i,
+                                               case={**ck.current_case, "env_index": i}))
+                break
+        ck.case_seen(("iter", idx, N)); ck.count("iteration_vs_singles")
+    ck.current_case = None
+
+
 def body(ck):
     ck.rule = ("(a) finite MDPs x wrapper stacks x tabular policies x N in 2..4 x T in 2..7: vmapped collection vs N single collections (real vs real, bitwise) and vs the Coq model; "
                "(b) built-in environments (classic control x constructor options x wrappers, MuJoCo; G1 in the thorough tier): eager vs jit vs vmap of transition/observation/reward/terminal on states reached by rollouts, rtol 2e-4")
@@ -163,6 +196,7 @@ def body(ck):
     quick = ck.tier == "quick"
     real_vs_real(ck, ck.rng, 5 if quick else 60)
     key_independence_probe(ck, quick)
+    iteration_vs_singles(ck, ck.rng, 3 if quick else 20)
     cases, cj = [], []
     for i in range(15 if quick else 250):
         lit, j, meta = gen_rollout_case(ck, ck.rng, 700_000 + i, force_vec=True)
